@@ -10,7 +10,7 @@ LEVEL = 'other'
 TECHNIQUE = ('decision-arm classification of the on<Signal> dispatch (only a uniquely resolved signal builds a callback, every other '
              'outcome pushes an error), structural reading of the overload-collapsing loop, dominance of the parameter verification '
              'over callback construction, positional provenance of parameters from declaration to lambda and forwarded call, '
-             'append-only/ordered statement pipeline from walker to printed body; over typed HIR')
+             'append-only/ordered statement pipeline from walker to printed body, all-or-error shape of the by-name overload lookup; over typed HIR')
 LEVEL_TEXT = ('That emitting the signal performs the same calls with the same values as the handler prescribes is a property of executions '
               'of the generated C++ for all handler bodies and argument values and is NOT decided. Decided are the wiring clauses of the '
               'statement whose truth is in the shape of the generator: the on<Name> -> signal name mapping strips exactly the prefix it '
